@@ -156,6 +156,20 @@ def case_video(rng, choice=None):
     why = sysoracles.obs_diff(footprints(sysA), footprints(sysC))
     if why:
         vs.append(("video-streaming-differs-from-plain-job-after-edit", why))
+    # … and the service itself: the job re-pointed to another service installed on the same server
+    if not vs:
+        bpp2 = bpp * 3
+        svc2 = VideoStreaming("video2", server=svc.server, base_ram_consumption=SourceValue(0 * u.GB),
+                              bits_per_pixel=SourceValue(bpp2 * u.dimensionless),
+                              static_delivery_cpu_cost=SourceValue(cost * u.cpu_core / (u.GB / u.s)),
+                              ram_buffer_per_user=SourceValue(buf * u.MB))
+        jobA.service = svc2
+        w3, h3 = map(int, re.search(r"\((\d+)\s*x\s*(\d+)\)", jobA.resolution.value).groups())
+        br3 = Fraction(w3 * h3) * frac(bpp2) * frac(fps) * 2
+        if not close_q(phys(jobA.dynamic_bitrate), (br3, (-1, 0, 0, 0, 0))):
+            vs.append(("video-not-refreshed:service", "bitrate not refreshed after re-pointing the job to another service"))
+        elif not close_q(phys(jobA.data_transferred), (br3 * frac(dur) * 3600, (0, 0, 0, 0, 0))):
+            vs.append(("video-not-refreshed:service", "data transferred not refreshed after re-pointing the job to another service"))
     return vs, {"builder": "video", "choice": resolution, "mixed_with_plain_job": mixed}
 
 
@@ -220,6 +234,18 @@ def case_web(rng, choice=None):
     why = sysoracles.obs_diff(footprints(sysA), footprints(sysC))
     if why:
         vs.append(("web-application-differs-from-plain-job-after-edit", why))
+    # … and the service itself: the job re-pointed to another web application installed on the same server
+    cur_impl = jobA.implementation_details.value
+    techs3 = [t for t in techs if t != svc.technology.value and len(ECOBENCHMARK_DF[(ECOBENCHMARK_DF["service"] == t) & (ECOBENCHMARK_DF["use_case"] == cur_impl)])]
+    if not vs and techs3:
+        t3 = rng.choice(techs3)
+        svc2 = WebApplication("web2", server=svc.server, technology=SourceObject(t3))
+        jobA.service = svc2
+        row4 = ECOBENCHMARK_DF[(ECOBENCHMARK_DF["service"] == t3) & (ECOBENCHMARK_DF["use_case"] == cur_impl)].iloc[0]
+        if not close_q(phys(jobA.compute_needed), (frac(float(row4["avg_cpu_core_per_request"])), (0, 0, 0, 1, 0))):
+            vs.append(("web-not-refreshed:service", f"compute needed not refreshed after re-pointing the job to a {t3} application"))
+        if not close_q(phys(jobA.ram_needed), (frac(float(row4["avg_ram_per_request_in_MB"])) * 8 * 10 ** 6, (0, 0, 0, 0, 0))):
+            vs.append(("web-not-refreshed:service", f"RAM needed not refreshed after re-pointing the job to a {t3} application"))
     return vs, {"builder": "web", "choice": [tech, impl], "mixed_with_plain_job": mixed}
 
 
